@@ -84,6 +84,18 @@ def gen_bulk(rng):
     return {"init": {"a": 1}, "bulk_keys": n, "threads": ths, "protocol": True, "bulk": n}
 
 
+def gen_render_race(rng, delay_us):
+    """updates landing while a very large `g` reply is being produced, each followed by the updater's own `g`: what returned before
+    a request was sent must be in its reply (the reply takes long to build, so the window in which an update can slip past it is wide)"""
+    n = rng.choice([20000, 30000])
+    fast = dict(chunk=1 << 20, pause_ms=0)
+    ths = [[raw([ord("g"), 10], "slow", **fast), {"op": "sleep_us", "us": 2000}, raw([ord("g"), 10], "slow", **fast)],
+           [{"op": "sleep_us", "us": delay_us}, {"op": "inc", "k": "a", "v": 1}, raw([ord("g"), 10], "slow", **fast)],
+           [{"op": "sleep_us", "us": delay_us * 2 + 500}, rng.choice([{"op": "inc", "k": "b", "v": 2}, {"op": "set", "k": "a", "v": 50}]),
+            raw([ord("g"), 0], "slow", **fast)]]
+    return {"init": {"a": 1, "b": 0}, "bulk_keys": n, "threads": ths, "protocol": True, "bulk": n, "render_race": delay_us}
+
+
 def gen_stall(rng):
     return {"init": {"a": 1}, "threads": [[raw([], "stall", stall_ms=2300), {"op": "cget"}], [raw([ord("g")], "stall", stall_ms=2300)],
                                            [{"op": "inc", "k": "a", "v": 1}, {"op": "cget"}]], "protocol": True, "stall": True}
@@ -108,6 +120,11 @@ def cases(seed, tier):
         scns.append({"mode": "histories", "seed": rng.randint(1, 10**6), "histories": [gen_stall(rng)], "kind": "stall"})
     for _ in range(2 if quick else 20):
         scns.append({"mode": "histories", "seed": rng.randint(1, 10**6), "histories": [gen_bulk(rng)], "kind": "bulk"})
+    # sweep the moment of the update across the time a 20000-counter reply takes to build (measured per run: see render_ms)
+    nrr = 24 if quick else 200
+    for i in range(0, nrr, 6):
+        scns.append({"mode": "histories", "seed": rng.randint(1, 10**6), "kind": "render_race",
+                     "histories": [gen_render_race(rng, int(120000 * (j + rng.random()) / nrr)) for j in range(i, i + 6)]})
     yield core.Case("C19-tsan", scns, {"n": len(scns)}, driver="stats", flavor="tsan")
     yield core.Case("C19-paths", [{"mode": "paths", "lengths": list(range(100, 121)) + [200, 4096], "kind": "paths"}], {}, driver="stats", flavor="asan")
 
@@ -141,9 +158,14 @@ def judge_history(v, scn, h, hout):
                 if b.get("timeout") or b.get("max_gap_ms", 0) >= 1500:
                     # the client itself (loaded machine) stayed away close to the server's 2 s patience: not a verdict
                     v.count("client_read_timeouts")
-                elif not b.get("json") or b.get("error") != 0 or not b.get("body_is_object") or b.get("bulk_keys") != h["bulk"] or b.get("bulk_bad") or b.get("other_keys") != 1:
+                elif not b.get("json") or b.get("error") != 0 or not b.get("body_is_object") or b.get("bulk_keys") != h["bulk"] or b.get("bulk_bad") or b.get("other_keys") != len(h.get("init", {})):
                     v.bad("bulk-reply", "truncated" if not b.get("json") else "content",
                           "a client reading a %d-counter `g` reply in %d-byte reads with %d ms pauses got %d bytes: %s" % (h["bulk"], o.get("chunk", 0), o.get("pause_ms", 0), b.get("len", 0), b))
+                else:
+                    # the small counters inside the big reply are read values like any other
+                    lin_ops.append({"op": "raw_g", "th": o.get("th"), "call": o["call"], "ret": o["ret"], "res": b.get("other", {})})
+                    if h.get("render_race") is not None:
+                        v.count("render_race_reads")
                 continue
             if rep is None:
                 continue
@@ -179,7 +201,8 @@ def judge_history(v, scn, h, hout):
         if kind == "creset" and o.get("res") != 0:
             v.bad("client-no-reply", "creset", "StatsClient::resetStats() returned %s" % o.get("res"))
             continue
-        lin_ops.append(o)
+        if kind != "sleep_us":
+            lin_ops.append(o)
     for a in lin_ops:
         for b in lin_ops:
             if a is not b and a["call"] < b["call"] < a["ret"]:
